@@ -213,7 +213,15 @@ def build(desc: dict) -> Any:
 
     ch = desc.get("chunks")
     if ch is not None:
-        out = [_chunk(o, ch, sample_dims(desc)) for o in out]
+        items = ch.get("items")
+        if items and len(out) >= 2 and not all(items[k % len(items)] == "memory" for k in range(len(out))):
+            # per-item layouts: list items / Dataset variables may be chunked differently, and some may be held
+            # in memory next to dask-backed ones (a *mixed* input is still a dask-backed input)
+            out = [o if items[k % len(items)] == "memory"
+                   else _chunk(o, dict(ch, mode=items[k % len(items)] or ch.get("mode", "single")), sample_dims(desc), k)
+                   for k, o in enumerate(out)]
+        else:
+            out = [_chunk(o, ch, sample_dims(desc), k) for k, o in enumerate(out)]
 
     if container == "da":
         return out[0]
@@ -236,7 +244,17 @@ def sample_dims(desc: dict):
     return names[0] if len(names) == 1 else tuple(names)
 
 
-def _chunk(da: xr.DataArray, ch: dict, sdim) -> xr.DataArray:
+def _irregular(size: int, n: int, rs) -> tuple:
+    """A seeded composition of ``size`` into at most ``n`` parts of unequal sizes (each >= 1)."""
+    n = max(1, min(n, size))
+    if n == 1:
+        return (size,)
+    cuts = sorted(rs.choice(np.arange(1, size), size=n - 1, replace=False).tolist())
+    edges = [0] + cuts + [size]
+    return tuple(int(b - a) for a, b in zip(edges[:-1], edges[1:]))
+
+
+def _chunk(da: xr.DataArray, ch: dict, sdim, k: int = 0) -> xr.DataArray:
     mode = ch.get("mode", "single")
     n = int(ch.get("n", 2))
     sd = [sdim] if isinstance(sdim, str) else list(sdim)
@@ -256,6 +274,15 @@ def _chunk(da: xr.DataArray, ch: dict, sdim) -> xr.DataArray:
     if mode == "allfeat":
         for d in fd:
             spec[d] = parts(d)
+    if mode == "all":
+        for d in da.dims:
+            spec[d] = parts(d)
+    if mode == "irregular":
+        # blocks of unequal sizes along the (first) sample dim and the first feature dim
+        rs = np.random.default_rng(int(ch.get("iseed", 0)) + 17 * k)
+        spec[sd[0]] = _irregular(da.sizes[sd[0]], n + 1, rs)
+        if ch.get("ifeat", True):
+            spec[fd[0]] = _irregular(da.sizes[fd[0]], n, rs)
     out = da.chunk(spec)
     # the blocks come out of a *loader task* (as they would from a file): whether a graph still reaches back
     # to the user's source is then observable by counting loader executions (C12 L2)
